@@ -15,6 +15,17 @@ Hardening (rounds 2/3): besides lengths x rates x modes x preambles the payload 
 * payloads constructed so that a checksum hits a sentinel (CRC-32 = 0 / 0xFFFFFFFF / own first octets, CRC-9 = 0);
 * error-path probes (failing generator / receiver calls first) and ambient variants (root logger at DEBUG,
   failing sys.stdout, reseeded `random`, a child `python -O`).
+
+Round 4: payload content that is itself a valid PDU / burst of the protocol (`pdu_cases`): blocks that on air are
+confirmed blocks with serial numbers k, k+1, … and a true CRC-9 (library-built and restated; every rate; runs of
+1..5, wrap 127 -> 0, whole numbered transmissions incl. a last block whose CRC-9 is searched; sibling conventions
+and near misses), the transmission's OWN data header (fixed point: the header depends on the payload length
+only) and own preamble CSBKs at every block start / shifted / in the last block / as the last block on air (CRC-32
+solved), foreign headers of every format, CSBKs, link control with true RS parity, whole 33-octet bursts, rate 1
+blocks that on air are BPTC / trellis codewords of other PDUs, confirmed blocks whose image on air (serial number,
+CRC-9, data) is a CRC-valid header / link control (searched); the payload handed over as an OBJECT the signature
+accepts (BytesInterface wrapper, the own header object passed twice, parsed header / CSBK / link control / burst
+objects); an earlier transmission on the same terminal and slot whose header / last block / payload is quoted.
 """
 import binascii
 import contextlib
@@ -340,6 +351,48 @@ def make_header(confirmed, poc, nblocks, sap, dst, src):
         resynchronize_flag=l.ResynchronizeFlag(0), send_sequence_number=0, fragment_sequence_number=8)
 
 
+def as_userdata(how, payload, header, info):
+    """the `userdata` argument: the octets, or an object the signature accepts as well (`BytesInterface`: anything with
+    `as_bytes()`) — a plain wrapper, or the library's own PDU object with exactly these octets (the transmission's own
+    header OBJECT, a parsed header / CSBK / full link control), when there is one"""
+    if not how:
+        return payload
+    l = L()
+    from okdmr.dmrlib.utils.bytes_interface import BytesInterface
+
+    class Octets(BytesInterface):
+        def __init__(self, data):
+            self.data = data
+
+        def as_bytes(self, endian="big"):
+            return self.data
+
+    obj = None
+    how, _, prefer = how.partition(":")
+    try:
+        if how == "pdu-object" and len(payload) == 12:
+            if c08.pdu_hex(header) == payload.hex():
+                obj = header  # the very object that is also passed as data_header
+            else:
+                classes = [l.DataHeader, l.CSBK, l.FullLinkControl]
+                for cls in sorted(classes, key=lambda c: c.__name__ != prefer):
+                    try:
+                        cand = cls.from_bits(l.bytes_to_bits(payload))
+                        if bytes(cand.as_bytes()) == payload:
+                            obj = cand
+                            break
+                    except BaseException:  # noqa
+                        continue
+        elif how == "pdu-object" and len(payload) == 33:
+            cand = l.Burst.from_bytes(payload)
+            if bytes(cand.as_bytes()) == payload:
+                obj = cand
+    except BaseException:  # noqa: these octets are no PDU the library re-serialises identically
+        obj = None
+    info["userdata_as"] = type(obj).__name__ if obj is not None else "Octets"
+    return obj if obj is not None else Octets(payload)
+
+
 def run_case(case):
     """case = dict(rate, confirmed, k, cc, payload hex, sap, dst, src, slot, raises[, ambient, provoke, defaults, header_from_bits, want_rx]).
     Returns (model lines, implementation outputs, oracle failures, info)."""
@@ -399,14 +452,15 @@ def run_case(case):
             except BaseException as e:  # noqa
                 fail("header-raises", f"DataHeader.from_bits(header.as_bits()) raised {impl_error(e)}", "header", impl_error(e))
                 return lines, outs, fails, info
+        userdata = as_userdata(case.get("userdata_as"), payload, header, info)
         try:
             if reseed:
                 _random.seed(0xC07)
             if case.get("defaults") and k == 3 and cc == 1:
                 # the documented defaults (3 preambles, colour code 1) left to the callee
-                bursts = l.TransmissionGenerator.generate_full_data_transmission(packet_type=cls, userdata=payload, data_header=header)
+                bursts = l.TransmissionGenerator.generate_full_data_transmission(packet_type=cls, userdata=userdata, data_header=header)
             else:
-                bursts = l.TransmissionGenerator.generate_full_data_transmission(cls, payload, header, csbk_count=k, colour_code=cc)
+                bursts = l.TransmissionGenerator.generate_full_data_transmission(cls, userdata, header, csbk_count=k, colour_code=cc)
             wire = [b.as_bytes() for b in bursts]
         except BaseException as e:  # noqa
             fail("generator-raises", f"generate_full_data_transmission / as_bytes raised {impl_error(e)}: {str(e)[:100]}", "bursts", impl_error(e))
@@ -444,6 +498,33 @@ def run_case(case):
                     term.process_incoming_burst(*bad)
                 except BaseException:  # noqa
                     info["provoked"] = info.get("provoked", 0) + 1
+        n_before = [0 for _ in observers]
+        if case.get("prelude"):
+            # an earlier complete transmission on the same terminal and time slot (whose header / blocks the payload of
+            # this one may quote): whatever it leaves behind must not matter
+            pre = case["prelude"]
+            try:
+                pp = bytes.fromhex(pre["payload"])
+                pcls = rate_cls(pre["rate"])
+                _, ppoc = l.TransmissionGenerator.generate_data_bursts(pcls, pp, cc, pre["confirmed"])
+                pper, plast = TABLE[(pre["rate"], pre["confirmed"])]
+                phdr = make_header(pre["confirmed"], ppoc, int_blocks(pper, plast, len(pp)), pre.get("sap", case["sap"]), pre.get("dst", case["dst"]), pre.get("src", case["src"]))
+                pwire = [b.as_bytes() for b in l.TransmissionGenerator.generate_full_data_transmission(pcls, pp, phdr, csbk_count=pre["k"], colour_code=cc)]
+                for w in pwire:
+                    tok = c08.alpha(w.hex(), "DataAndControl")[0]
+                    before = [len(o.log) for o in observers]
+                    lines.append(f"t.burst {slot} {tok}")
+                    out = term.process_incoming_burst(l.Burst.from_bytes(w), slot)
+                    news = [o.log[n:] for o, n in zip(observers, before)]
+                    outs.append(" ".join([str(out.sequence_no), c08.LABEL[out.voice_burst.name], str(int.from_bytes(out.stream_no, "big")),
+                                          str(term.timeslots[slot].colour_code), "|".join(";".join(n) if n else "-" for n in news) if observers else "-"]))
+            except BaseException as e:  # noqa
+                if len(outs) < len(lines):
+                    outs.append(impl_error(e))
+                fail("receiver-raises", f"the earlier transmission on the same slot raised {impl_error(e)}", "no exception", impl_error(e))
+                return lines, outs, fails, info
+            n_before = [len(o.raw) for o in observers]
+            info["prelude_events"] = [[(e[0], e[1]) for e in o.raw] for o in observers][:1]
         for i, w in enumerate(wire):
             if reseed:
                 _random.seed(i)
@@ -465,7 +546,10 @@ def run_case(case):
 
         # ---- oracle: exactly the property
         for j, o in enumerate(observers):
-            ev = o.raw
+            if case.get("prelude") and [(e[0], e[1]) for e in o.raw[:n_before[j]]] != [("S", "D"), ("E", "D")]:
+                fail("events", f"observer {j}: the earlier transmission on the same slot was not received as one 'started data' and one 'data ended'",
+                     [["S", "D"], ["E", "D"]], [(e[0], e[1]) for e in o.raw[:n_before[j]]])
+            ev = o.raw[n_before[j]:]
             kinds = [(e[0], e[1]) for e in ev]
             if kinds != [("S", "D"), ("E", "D")]:
                 fail("events", f"observer {j} did not receive exactly one 'started data' and one 'data ended'", [["S", "D"], ["E", "D"]], kinds)
@@ -798,9 +882,438 @@ def structured_cases(ctx, rng):
 
 
 # ------------------------------------------------------------------------------------------------
+# round 4: payload content that is itself a valid PDU / burst of the protocol.  A payload block that reads as a
+# confirmed block with the next serial number and a true CRC-9, as the transmission's own header or preamble, as
+# a foreign header / CSBK / link control, as the FEC codeword of another burst … is still payload.
+# ------------------------------------------------------------------------------------------------
+SER = {"r12": 12, "r34": 18, "r1": 24}  # octets of the information field of one burst = one serialised block
+
+
+def rev9(v: int) -> int:
+    return int(f"{v & 0x1FF:09b}"[::-1], 2)
+
+
+def onair_block(rate, kind, data, dbsn=0, crc32=b"", how="lib", mask=None, msb=False, crc9_xor=0):
+    """the octets a block of `kind` (conf / conf-last / unconf / unconf-last) occupies in the information field of
+    its burst.  how = lib: the library's own constructor and `as_bits`; ref: restated here — 7-bit serial number,
+    CRC-9 field (least significant bit first as the library stores it, `msb`: most significant bit first as ETSI
+    draws it; `mask`: the CRC mask of that rate; `crc9_xor`: near miss), data[, CRC-32 as sent]"""
+    conf, lastk = kind.startswith("conf"), kind.endswith("last")
+    assert len(data) == TABLE[(rate, conf)][1 if lastk else 0]
+    if how == "lib":
+        b = rate_cls(rate)(data=data, dbsn=dbsn, crc32=crc32 if lastk else 0)  # the type follows from the data length
+        assert b.is_confirmed() == conf and b.is_last_block() == lastk
+        return b.as_bits().tobytes()
+    out = b""
+    if conf:
+        c9 = ref_crc9(data, dbsn, CRC9_MASK[mask or rate], int.from_bytes(crc32, "big") if lastk else None) ^ crc9_xor
+        out = ((dbsn << 9) | (c9 if msb else rev9(c9))).to_bytes(2, "big")
+    return out + data + (crc32 if lastk else b"")
+
+
+def confirmed_image(rate, inner, start=0, step=1, whole=True, **variant):
+    """the information fields of the bursts of a confirmed transmission of `inner` at `rate`, serial numbers
+    start, start+step, … (mod 128) as ETSI numbers them (the library's generator leaves them 0); `whole`: the final
+    block is a last block (6 / 12 / 18 octets and the CRC-32 of the padded inner payload), else `inner` is cut into
+    full non-last blocks only"""
+    per, last = TABLE[(rate, True)]
+    if not whole:
+        inner = inner[: len(inner) // per * per]
+        return [onair_block(rate, "conf", inner[i:i + per], (start + step * (i // per)) % 128, **variant) for i in range(0, len(inner), per)]
+    nb = int_blocks(per, last, len(inner))
+    padded = inner + bytes((nb - 1) * per + last - len(inner))
+    crc = ref_crc32(padded).to_bytes(4, "little")
+    return [onair_block(rate, "conf-last" if i == nb - 1 else "conf", padded[i * per:(i + 1) * per], (start + step * i) % 128,
+                        crc if i == nb - 1 else b"", **variant) for i in range(nb)]
+
+
+def unconfirmed_image(rate, inner):
+    per, last = TABLE[(rate, False)]
+    nb = int_blocks(per, last, len(inner))
+    padded = inner + bytes((nb - 1) * per + last - len(inner))
+    return [padded[i * per:(i + 1) * per] for i in range(nb - 1)] + [padded[(nb - 1) * per:] + ref_crc32(padded).to_bytes(4, "little")]
+
+
+def header_octets(case, n):
+    """the 12 octets of the data header the transmission of an n-octet payload under `case` gets: the header depends
+    on the payload through its length only (pad count, blocks to follow), so a payload can quote it"""
+    per, last = TABLE[(case["rate"], case["confirmed"])]
+    nb = int_blocks(per, last, n)
+    return bytes.fromhex(c08.pdu_hex(make_header(case["confirmed"], (nb - 1) * per + last - n, nb, case["sap"], case["dst"], case["src"])))
+
+
+def preamble_octets(case, btf, individual=True):
+    l = L()
+    return bytes.fromhex(c08.pdu_hex(l.CSBK(source_address=case["src"], target_address=case["dst"], blocks_to_follow=btf & 0xFF,
+                                            csbko=l.CsbkOpcodes.PreambleCSBK, target_address_is_individual=individual, last_block=True)))
+
+
+def lc_octets(rng, terminator=False, valid=True, body=None):
+    """a full link control (voice LC header / terminator with LC): 9 octets and their RS(12,9) parity under the mask"""
+    from okdmr.dmrlib.etsi.fec.reed_solomon_12_9_4 import ReedSolomon1294
+
+    body = body or bytes([rng.choice((0, 3)), rng.choice((0, 0x10)), rng.getrandbits(8)]) + rbytes(rng, 6)
+    out = ReedSolomon1294.generate(body, b"\x99\x99\x99" if terminator else b"\x96\x96\x96")
+    full = out if len(out) == 12 else body + out[-3:]
+    return full if valid else full[:9] + bytes(x ^ 0x5A for x in full[9:])
+
+
+def foreign_pdus(rng, nb):
+    """12-octet PDUs and 33-octet bursts of other transmissions, built by the library: [(name, octets)]"""
+    out = []
+    for fmt in ("unconfirmed", "confirmed", "response", "sdd", "udt"):
+        for btf in (0, 1, nb, 127):
+            if fmt == "udt" and btf:
+                continue
+            burst = c08.sym_data_header(rng, fmt=fmt, btf=btf, a=rng.randrange(2), sap=rng.choice((3, 4, 10)))
+            out.append((f"header:{fmt}:btf{'N' if btf == nb and btf > 1 else btf}", bytes.fromhex(c08.alpha(burst[0], burst[1])[1]["id"])))
+    for btf in (0, 1, nb, nb + 1, 255):
+        burst = c08.sym_csbk(rng, preamble=True, btf=btf)
+        out.append((f"csbk:preamble:{'N' if btf == nb else 'N+1' if btf == nb + 1 else btf}", bytes.fromhex(c08.alpha(burst[0], burst[1])[1]["id"])))
+    for _ in range(2):
+        burst = c08.sym_csbk(rng, preamble=False)
+        out.append(("csbk:other", bytes.fromhex(c08.alpha(burst[0], burst[1])[1]["id"])))
+    out.append(("lc:voice-header", lc_octets(rng)))
+    out.append(("lc:terminator", lc_octets(rng, terminator=True)))
+    out.append(("lc:voice-header:bad-parity", lc_octets(rng, valid=False)))
+    out.append(("burst:voice-header", bytes.fromhex(c08.sym_voice_header(rng, kind="group")[0])))
+    out.append(("burst:terminator", bytes.fromhex(c08.sym_terminator(rng)[0])))
+    out.append(("burst:data-header", bytes.fromhex(c08.sym_data_header(rng, fmt="unconfirmed", btf=1, a=0)[0])))
+    out.append(("burst:csbk-preamble", bytes.fromhex(c08.sym_csbk(rng, preamble=True, btf=1)[0])))
+    out.append(("burst:rate12", bytes.fromhex(c08.sym_rate(rng, rate="r12")[0])))
+    out.append(("burst:voice-sync", bytes.fromhex(c08.sym_voice_sync(rng)[0])))
+    return out
+
+
+def fec_image_r1(rng, make12=None, make18=None, tries=400):
+    """24 octets = a rate 1 block whose 196 bits on air (96 + 0000 + 96) are the BPTC(196,96) codeword of the 12
+    octets make12() / the rate 3/4 trellis codeword of the 18 octets make18(); None if the four filler bits of no
+    candidate are zero (one in sixteen is)"""
+    l = L()
+    for _ in range(tries):
+        cw = l.BPTC19696.encode(l.bytes_to_bits(make12())) if make12 else l.Trellis34.encode(l.bytes_to_bits(make18()))
+        if len(cw) == 196 and not cw[96:100].any():
+            return (cw[:96] + cw[100:]).tobytes()
+    return None
+
+
+def header_crc(h10: bytes) -> bytes:
+    l = L()
+    from okdmr.dmrlib.etsi.crc.crc16 import CRC16
+
+    return (CRC16.calculate(h10, l.CrcMasks.DataHeader) & 0xFFFF).to_bytes(2, "big")
+
+
+def confirmed_onair_pdu(rng, rate, target, tries=6000):
+    """data octets of one non-last CONFIRMED block (serial number 0 as the generator numbers them) whose image on
+    air — serial number, CRC-9, data — begins with a well-formed 12-octet PDU: `header` (CRC-CCITT ok, parses),
+    `lc` / `terminator` (RS(12,9) parity ok).  The CRC-9 the generator will compute has to be the PDU's own bits
+    7..15: one candidate in 512 fits."""
+    l = L()
+    per = TABLE[(rate, True)][0]
+    for _ in range(tries):
+        if target == "header":
+            first2 = rng.getrandbits(9).to_bytes(2, "big")  # serial number 0, then any nine bits
+            h10 = first2 + rbytes(rng, 8)
+            pdu = h10 + header_crc(h10)
+        else:
+            pdu = lc_octets(rng, terminator=target == "terminator", body=bytes([rng.choice((0, 1)), rng.getrandbits(8)]) + rbytes(rng, 7))
+        data = pdu[2:] + rbytes(rng, per - 10)
+        if rev9(ref_crc9(data, 0, CRC9_MASK[rate])) != int.from_bytes(pdu[:2], "big"):
+            continue
+        if target == "header":
+            try:
+                if l.DataHeader.from_bits(l.bytes_to_bits(pdu)).crc_ok is not True:
+                    continue
+            except BaseException:  # noqa: a reserved format the library does not parse
+                continue
+        return data
+    return None
+
+
+def numbered_last_image(rng, rate, nb, start, tries=8000):
+    """payload of an UNCONFIRMED transmission of nb >= 2 blocks (no pad) that on air is block by block an ETSI-numbered
+    confirmed transmission: every non-last block = serial number, true CRC-9, data; the last block (its octets and
+    the CRC-32 the generator appends) = serial number, true CRC-9 over (data, that CRC-32), data, CRC-32.  The
+    CRC-9 field is part of what the CRC-32 covers: random search, one candidate in 512 fits."""
+    perc, lastc = TABLE[(rate, True)]
+    head = b"".join(confirmed_image(rate, rbytes(rng, (nb - 1) * perc), start, whole=False, how="ref"))
+    dbsn = (start + nb - 1) % 128
+    for _ in range(tries):
+        d = rbytes(rng, lastc)
+        f = rng.getrandbits(9)
+        payload = head + ((dbsn << 9) | f).to_bytes(2, "big") + d
+        crc = ref_crc32(payload).to_bytes(4, "little")
+        if rev9(ref_crc9(d, dbsn, CRC9_MASK[rate], int.from_bytes(crc, "big"))) == f:
+            return payload
+    return None
+
+
+def pdu_cases(ctx, rng):
+    """[(desc, case, count key)] of the class `payload content that is itself a valid PDU of the protocol`"""
+    out = []
+    thorough = ctx.thorough()
+    idx = [0]
+    CONFIGS = [(r, c) for r in RATES for c in (False, True)]
+
+    def emit(fam, variant, rate, confirmed, payload, k=None, fix=None):
+        c = small_case(rng, rate, confirmed, payload, idx[0], k)
+        if fix:
+            c.update(fix)
+        idx[0] += 1
+        out.append((f"pdu:{fam}:{variant}", c, f"class:pdu:{fam}:{variant.split(' ')[0]}"))
+        return c
+
+    def embed(n, off, blob):
+        buf = bytearray(rbytes(rng, n))
+        if off < 0:
+            blob, off = blob[-off:], 0
+        buf[off:off + len(blob)] = blob[:max(0, n - off)]
+        return bytes(buf[:n])
+
+    def length_for(rate, confirmed, nb, pad):
+        per, last = TABLE[(rate, confirmed)]
+        return max(0, (nb - 1) * per + last - (pad if nb > 1 else min(pad, last)))
+
+    starts = (0, 1, 5, 63, 126, 127, rng.randrange(2, 126)) if thorough else (0, 1, 126, 127, rng.randrange(2, 126))
+    # ---- F1: runs of blocks that on air are confirmed blocks with serial numbers k, k+1, … and true CRC-9
+    for ri, rate in enumerate(RATES):
+        perc = TABLE[(rate, True)][0]
+        ser = SER[rate]
+        # (a) the same rate, unconfirmed: every image is exactly one block of the transmission
+        for si, start in enumerate(starts):
+            for m in (1, 2, 3, 5) if thorough else (2, 3):
+                for j in (0, 1, 3) if thorough else ((0, 1, 2)[(si + m) % 3],):
+                    how = ("lib", "ref")[(si + m + j) % 2]
+                    imgs = confirmed_image(rate, rbytes(rng, m * perc), start, whole=False, how=how)
+                    nb = j + m + rng.choice((1, 1, 2, 3))  # at least the last block follows
+                    n = length_for(rate, False, nb, rng.choice((0, 1, 5)))
+                    emit("numbered-run", f"same-rate:{how} (start {start}, {m} blocks from block {j} of {nb}, {rate})", rate, False,
+                         embed(n, j * ser, b"".join(imgs)), k=(0, 1, 2, 3)[(si + j) % 4])
+        # (b) siblings: other CRC-9 conventions, serial numbers that do not follow on, near misses
+        variants = [
+            ("msb-first-field", dict(how="ref", msb=True), 1), ("mask-of-other-rate", dict(how="ref", mask=RATES[(ri + 1) % 3]), 1),
+            ("mask-of-other-rate-msb", dict(how="ref", mask=RATES[(ri + 2) % 3], msb=True), 1), ("crc9-one-bit-off", dict(how="ref", crc9_xor=1), 1),
+            ("crc9-inverted", dict(how="ref", crc9_xor=0x1FF), 1), ("same-number-twice", dict(how="lib"), 0), ("descending", dict(how="lib"), -1),
+            ("step-two", dict(how="lib"), 2), ("numbered-by-position", dict(how="lib"), 1),
+        ]
+        for vi, (name, kw, step) in enumerate(variants):
+            for m in (2, 3) if thorough else (2 + vi % 2,):
+                j = vi % 2
+                start = j if name == "numbered-by-position" else rng.choice(starts)
+                imgs = confirmed_image(rate, rbytes(rng, m * perc), start, step=step, whole=False, **kw)
+                n = length_for(rate, False, j + m + 1 + vi % 2, rng.choice((0, 1)))
+                emit("numbered-run", f"{name} ({rate}, start {start})", rate, False, embed(n, j * ser, b"".join(imgs)))
+        # (c) the images of a whole numbered confirmed transmission (last block with the CRC-32 of its own payload)
+        for N in (1, 2, 3, 4) if thorough else (1, 3):
+            for start in (0, 1, rng.randrange(2, 128)):
+                lastc = TABLE[(rate, True)][1]
+                imgs = confirmed_image(rate, rbytes(rng, (N - 1) * perc + lastc - rng.choice((0, 0, 1, 4))), start, how=("lib", "ref")[N % 2])
+                blob = b"".join(imgs)
+                emit("numbered-run", f"whole-confirmed-transmission ({rate}, {N} blocks from {start})", rate, False, blob + rbytes(rng, rng.choice((0, 0, 3))))
+                emit("numbered-run", f"whole-confirmed-transmission:as-confirmed-data ({rate})", rate, True, blob)
+        # (d) the same images as the payload of the other rates / modes (not block aligned there), shifted by octets
+        for (r2, c2) in CONFIGS:
+            if (r2, c2) == (rate, False):
+                shifts = (1, 2, ser - 1)
+            else:
+                shifts = (0, rng.choice((1, 2)))
+            for sh in shifts if thorough else shifts[:2]:
+                m = rng.choice((2, 3))
+                blob = b"".join(confirmed_image(rate, rbytes(rng, m * perc), rng.choice(starts), whole=False, how="lib"))
+                per2, last2 = TABLE[(r2, c2)]
+                nb = (len(blob) + sh) // per2 + 2
+                emit("numbered-run", f"{'shifted' if (r2, c2) == (rate, False) else 'other-rate-mode'} ({rate} images in {r2} {'confirmed' if c2 else 'unconfirmed'}, +{sh})",
+                     r2, c2, embed(length_for(r2, c2, nb, rng.choice((0, 1))), sh, blob))
+        # (e) on air the WHOLE unconfirmed transmission is a numbered confirmed one, last block included (searched)
+        for nb, start in ((2, 0), (3, 5), (2, 127)) if thorough else ((2, (0, 5, 127)[ri]), (3, 1)):
+            payload = numbered_last_image(rng, rate, nb, start)
+            if payload is None:
+                ctx.count("class:pdu:numbered-run:last-block-too:unsolved")
+                continue
+            emit("numbered-run", f"last-block-too ({rate}, {nb} blocks from {start})", rate, False, payload, k=nb % 2)
+        # (f) blocks of an unconfirmed transmission (last one with its CRC-32) inside a confirmed / an unconfirmed one
+        for N in (1, 2, 3):
+            blob = b"".join(unconfirmed_image(rate, rbytes(rng, (N - 1) * ser + ser - 4 - rng.choice((0, 1)))))
+            for c2 in (True, False):
+                emit("unconfirmed-image", f"in-{'confirmed' if c2 else 'unconfirmed'} ({rate}, {N} blocks)", rate, c2, blob + rbytes(rng, rng.choice((0, 2))))
+    # ---- F3: the transmission's own data header (fixed point through the payload length), own addresses
+    for rate, confirmed in CONFIGS:
+        per, last = TABLE[(rate, confirmed)]
+        for nb in (2, 3, 5, 9) if thorough else (2, 3, 5):
+            for pad in (0, 1, 5) if thorough else ((0, 1, 5)[nb % 3],):
+                n = length_for(rate, confirmed, nb, pad)
+                offs = [(f"block{j}", j * per) for j in range(nb - 1)]
+                if not thorough and len(offs) > 2:
+                    offs = [offs[0], offs[-1], offs[len(offs) // 2]]
+                if per > 12:
+                    offs.append(("block-end-aligned", (nb - 2) * per + per - 12))
+                offs += [("shifted+1", per * ((nb - 1) // 2) + 1), ("shifted-1", per - 1),
+                         ("shifted+2", 2), ("last-block", (nb - 1) * per), ("payload-end", n - 12)]
+                for oi, (where, off) in enumerate(offs):
+                    if off < 0 or off >= n:
+                        continue
+                    k = (0, 1, 3, 2)[(oi + nb) % 4]
+                    c = emit("own-header", f"{where} ({rate} {'confirmed' if confirmed else 'unconfirmed'}, {nb} blocks)", rate, confirmed, bytes(n), k=k)
+                    c["payload"] = embed(n, off, header_octets(c, n)).hex()
+                    if oi % 5 == 4:
+                        c["header_from_bits"] = True
+        # several copies; the header next to the own preamble; the addresses alone
+        for nb, what in ((4, "twice-adjacent"), (5, "in-every-block"), (4, "preamble+header"), (3, "addresses-first"), (3, "header-without-crc")):
+            n = length_for(rate, confirmed, nb, rng.choice((0, 1)))
+            c = emit("own-header", f"{what} ({rate} {'confirmed' if confirmed else 'unconfirmed'})", rate, confirmed, bytes(n), k=rng.choice((1, 2, 3)))
+            h = header_octets(c, n)
+            if what == "twice-adjacent":
+                p = embed(n, per, h + bytes(max(0, per - 12)) + h)
+            elif what == "in-every-block":
+                p = b"".join((h + rbytes(rng, per))[:per] for _ in range(nb))[:n]
+            elif what == "preamble+header":
+                p = embed(n, per, (preamble_octets(c, nb + 1) + rbytes(rng, per))[:max(per, 12)] + h)
+            elif what == "addresses-first":
+                p = embed(n, per, c["dst"].to_bytes(3, "big") + c["src"].to_bytes(3, "big") + c["src"].to_bytes(3, "big") + c["dst"].to_bytes(3, "big"))
+            else:
+                p = embed(n, per, h[:10] + bytes(2))
+            c["payload"] = p.hex()
+    # ---- F4: the last block AS SENT (its octets + the CRC-32) ends with the own header / an own preamble / a foreign header
+    for rate, confirmed in CONFIGS:
+        per, last = TABLE[(rate, confirmed)]
+        if last < 8:
+            continue  # rate 1/2 confirmed: the 12 octets on air start with serial number and CRC-9
+        for nb, target in ((2, "own-header"), (3, "own-header"), (2, "own-preamble"), (3, "foreign-header")) if thorough or not confirmed else ((2, "own-header"),):
+            n = length_for(rate, confirmed, nb, 0)
+            c = emit("last-block-on-air", f"{target} ({rate} {'confirmed' if confirmed else 'unconfirmed'}, {nb} blocks)", rate, confirmed, bytes(n), k=rng.choice((0, 1, 2)))
+            pdu = header_octets(c, n) if target == "own-header" else preamble_octets(c, nb + 1) if target == "own-preamble" else \
+                bytes.fromhex(c08.pdu_hex(make_header(False, 3, 7, 4, 77, 88)))
+            p = (n - 8 - 4) & ~1  # four solved octets at an even offset in front of the quoted 8
+            if p < 0:
+                out.pop()
+                continue
+            head = rbytes(rng, p)
+            tail = rbytes(rng, n - 8 - 4 - p) + pdu[:8]
+            x = solve_tail32(head, tail, int.from_bytes(pdu[8:12], "little"))
+            if x is None:
+                out.pop()
+                ctx.count("class:pdu:last-block-on-air:unsolvable")
+                continue
+            c["payload"] = (head + x + tail).hex()
+    # ---- F5: the transmission's own preamble CSBKs (every count that is sent, and counts that are not)
+    for rate, confirmed in CONFIGS:
+        per, last = TABLE[(rate, confirmed)]
+        for k in (1, 2, 3, 16) if thorough else (1, 3):
+            nb = rng.choice((2, 3, 4))
+            n = length_for(rate, confirmed, nb, rng.choice((0, 1, 5)))
+            for name, btf in (("first-sent", k + nb), ("last-sent", nb + 1), ("next-count", nb), ("zero", 0), ("255", 255)):
+                c = emit("own-preamble", f"{name} ({rate} {'confirmed' if confirmed else 'unconfirmed'}, k={k})", rate, confirmed, bytes(n), k=k)
+                j = rng.randrange(nb - 1)
+                c["payload"] = embed(n, j * per + (per - 12 if per > 12 and btf % 2 else 0), preamble_octets(c, btf)).hex()
+            c = emit("own-preamble", f"whole-countdown-and-header ({rate} {'confirmed' if confirmed else 'unconfirmed'}, k={k})", rate, confirmed, bytes(12 * (k + 1) + 5), k=k)
+            n = 12 * (k + 1) + 5
+            nbo = int_blocks(per, last, n)
+            c["payload"] = (b"".join(preamble_octets(c, nbo + 1 + i) for i in reversed(range(k))) + header_octets(c, n) + rbytes(rng, 5)).hex()
+    # ---- F6: PDUs and bursts of other transmissions at block starts, shifted, adjacent
+    for ci, (rate, confirmed) in enumerate(CONFIGS):
+        per, last = TABLE[(rate, confirmed)]
+        nb = 4
+        pdus = foreign_pdus(rng, nb)
+        for pi, (name, blob) in enumerate(pdus):
+            if not thorough and (pi + ci) % 2 and not name.startswith(("header:unconfirmed", "header:confirmed", "lc:")):
+                continue
+            n = length_for(rate, confirmed, nb if len(blob) <= 12 else nb + 33 // per, rng.choice((0, 1, 5)))
+            where = (pi + ci) % 4
+            off = (0, per, 2 * per, per + rng.choice((1, 2, per - 1)))[where]
+            emit("foreign", f"{name} ({rate} {'confirmed' if confirmed else 'unconfirmed'}, {'shifted' if where == 3 else 'block ' + str(where)})", rate, confirmed, embed(n, off, blob))
+        # a whole foreign transmission / call, PDU after PDU
+        d = dict(pdus)
+        for name, seq in (("preamble+header+block", d["csbk:preamble:1"] + d["header:unconfirmed:btf1"] + rbytes(rng, 12)),
+                          ("voice-header+terminator", d["lc:voice-header"] + d["lc:terminator"]),
+                          ("header-twice", d["header:confirmed:btfN"] * 2)):
+            emit("foreign", f"adjacent:{name} ({rate} {'confirmed' if confirmed else 'unconfirmed'})", rate, confirmed,
+                 embed(length_for(rate, confirmed, len(seq) // per + 2 + ci % 2, ci % 3), per * (ci % 2), seq))
+    # ---- F7: a rate 1 block that on air is the FEC codeword of another burst (BPTC of a header / preamble / link
+    # control / rate 1/2 confirmed block, trellis of a rate 3/4 block)
+    for confirmed in (False, True):
+        per, last = TABLE[("r1", confirmed)]
+        for name in ("bptc:own-header", "bptc:foreign-header", "bptc:csbk-preamble", "bptc:terminator", "bptc:r12-confirmed-block", "trellis:r34-confirmed-block"):
+            nb = 3
+            n = length_for("r1", confirmed, nb, rng.choice((0, 1)))
+            c = emit("fec-image", f"{name} (r1 {'confirmed' if confirmed else 'unconfirmed'})", "r1", confirmed, bytes(n), k=rng.choice((0, 1, 2)))
+
+            def own():
+                c["dst"] = rng.randrange(1, 1 << 24)
+                return header_octets(c, n)
+
+            img = fec_image_r1(rng, make12={
+                "bptc:own-header": own,
+                "bptc:foreign-header": lambda: bytes.fromhex(c08.pdu_hex(make_header(bool(rng.randrange(2)), rng.randrange(16), rng.randrange(1, 9), 4, rng.randrange(1, 1 << 24), 9))),
+                "bptc:csbk-preamble": lambda: preamble_octets(dict(c, src=rng.randrange(1, 1 << 24)), nb + 1),
+                "bptc:terminator": lambda: lc_octets(rng, terminator=True),
+                "bptc:r12-confirmed-block": lambda: onair_block("r12", "conf", rbytes(rng, 10), rng.randrange(128)),
+            }.get(name), make18=(lambda: onair_block("r34", "conf", rbytes(rng, 16), rng.randrange(128))) if name.startswith("trellis") else None)
+            if img is None:
+                out.pop()
+                ctx.count("class:pdu:fec-image:unsolved")
+                continue
+            # unconfirmed: the 24 octets are one block; confirmed: they cannot be (the first 16 bits on air are serial number and CRC-9), near miss
+            c["payload"] = embed(n, per * (idx[0] % 2), img).hex()
+    # ---- F9: the payload handed over as an OBJECT the signature accepts (BytesInterface): a wrapper around the octets, the
+    # library's own PDU object with these octets — the transmission's own header object passed twice (as userdata and as
+    # data_header), a foreign header / CSBK / link control / whole burst object
+    for ci, (rate, confirmed) in enumerate(CONFIGS):
+        c = emit("as-object", f"own-header-object ({rate} {'confirmed' if confirmed else 'unconfirmed'})", rate, confirmed, bytes(12), k=ci % 3, fix={"userdata_as": "pdu-object"})
+        c["payload"] = header_octets(c, 12).hex()
+        pdus = [p for p in foreign_pdus(rng, 2) if p[0].startswith(("header:unconfirmed", "header:response", "csbk:preamble:1", "csbk:other", "lc:voice-header", "lc:terminator", "burst:"))]
+        for pi, (name, blob) in enumerate(pdus):
+            if thorough or (pi + ci) % 3 == 0:
+                emit("as-object", f"{name.split(':btf')[0]} ({rate} {'confirmed' if confirmed else 'unconfirmed'})", rate, confirmed, blob,
+                     fix={"userdata_as": "pdu-object:" + {"header": "DataHeader", "csbk": "CSBK", "lc": "FullLinkControl", "burst": "Burst"}[name.split(":")[0]]})
+        for n in (0, 1, TABLE[(rate, confirmed)][1], 3 * TABLE[(rate, confirmed)][0]):
+            emit("as-object", f"wrapper ({n} octets, {rate} {'confirmed' if confirmed else 'unconfirmed'})", rate, confirmed, rbytes(rng, n), fix={"userdata_as": "wrapper"})
+    # ---- F10: an earlier transmission on the same terminal and slot whose header / blocks / data this payload quotes
+    for ci, (rate, confirmed) in enumerate(CONFIGS):
+        per, last = TABLE[(rate, confirmed)]
+        for vi, what in enumerate(("its-header", "its-last-block-on-air", "its-payload-again", "other-mode-before", "its-preamble")):
+            if not thorough and (vi + ci) % 2:
+                continue
+            pconf = (not confirmed) if what == "other-mode-before" else confirmed
+            pper, plast = TABLE[(rate, pconf)]
+            pn = 2 * pper + plast - rng.choice((0, 1))
+            pre = {"rate": rate, "confirmed": pconf, "payload": rbytes(rng, pn).hex(), "k": rng.choice((0, 1, 2))}
+            nb = 3
+            n = length_for(rate, confirmed, nb, rng.choice((0, 1)))
+            c = emit("after-earlier-transmission", f"{what} ({rate} {'confirmed' if confirmed else 'unconfirmed'})", rate, confirmed, bytes(n), k=rng.choice((0, 1, 2)), fix={"prelude": pre})
+            pcase = dict(c, rate=rate, confirmed=pconf)
+            if what == "its-header":
+                blob = header_octets(pcase, pn)
+            elif what == "its-preamble":
+                pre["k"] = 2
+                blob = preamble_octets(pcase, 4)
+            elif what == "its-last-block-on-air":
+                pp = bytes.fromhex(pre["payload"])
+                padded = pp + bytes(2 * pper + plast - pn)
+                blob = padded[2 * pper:] + ref_crc32(padded).to_bytes(4, "little")
+            elif what == "its-payload-again":
+                blob = bytes.fromhex(pre["payload"])
+            else:
+                blob = b"".join(confirmed_image(rate, rbytes(rng, 2 * TABLE[(rate, True)][0]), 0, whole=False))
+            c["payload"] = embed(n, per * (vi % 2), blob).hex()
+    # ---- F8: a CONFIRMED block whose image on air (serial number 0, its CRC-9, data) starts with a well-formed PDU
+    for rate in RATES:
+        per, last = TABLE[(rate, True)]
+        for target in ("header", "lc", "terminator") if thorough else (("header", "lc", "terminator")[RATES.index(rate)], "header"):
+            data = confirmed_onair_pdu(rng, rate, target)
+            if data is None:
+                ctx.count("class:pdu:confirmed-on-air:unsolved")
+                continue
+            nb = rng.choice((2, 3))
+            j = rng.randrange(nb - 1)
+            emit("confirmed-on-air", f"{target} ({rate}, block {j} of {nb})", rate, True, embed(length_for(rate, True, nb, rng.choice((0, 1))), j * per, data))
+    return out
+
+
+# ------------------------------------------------------------------------------------------------
 # child interpreter with assert statements stripped (python -O)
 # ------------------------------------------------------------------------------------------------
-CHILD = "import sys; sys.path.insert(0, sys.argv[1]); from props import c07; c07.child_main()"
+CHILD ="import sys; sys.path.insert(0, sys.argv[1]); from props import c07; c07.child_main()"
 
 
 def child_main():
@@ -883,7 +1396,14 @@ def run(ctx):
         "implementation, other octet / bit orders, zlib, CRC-CCITT, CRC-9 fields, near misses: one octet early / late, one bit off); "
         "payloads whose own CRC-32 / a block's CRC-9 is a sentinel (0, all ones, the payload's first octets; solved over GF(2)); "
         "payloads made of what the library delivered for an earlier transmission (data + CRC-32 alone, followed by more, twice, nested, "
-        "in other rates / modes) or serialised (own header, preamble, blocks, bursts). Error-path probes (failing generator and receiver "
+        "in other rates / modes) or serialised (own header, preamble, blocks, bursts). Payload content that is itself a valid PDU of the "
+        "protocol, for every rate / mode: runs of blocks that on air are confirmed blocks numbered k, k+1, … with a true CRC-9 (library-built "
+        "and independently restated, wrap 127 -> 0, whole numbered transmissions whose last block is searched, other field orders / masks / "
+        "near misses), the transmission's own header (solved through the payload length) and own preamble CSBKs at every block start, shifted, "
+        "in the last block, as the image of the last block on air (CRC-32 solved), foreign headers / CSBKs / link control / whole bursts, rate 1 "
+        "blocks that are FEC codewords of other PDUs, confirmed blocks whose image on air is a CRC-valid header / link control; the payload "
+        "handed over as a BytesInterface object (wrapper, the own header object passed as userdata and as data_header, parsed PDU / burst objects); "
+        "an earlier transmission on the same terminal and slot whose header / last block / payload this one quotes. Error-path probes (failing generator and receiver "
         "calls before the valid ones) and ambient variants (root logger at DEBUG with a formatting handler, sys.stdout that raises, "
         "global random reseeded before every call, a child python -O over a fixed sample) on a fixed share. A case is one generated "
         "transmission sent through serialise, parse and a real Terminal; distinct = distinct (rate, mode, k, colour code, payload, "
@@ -901,7 +1421,7 @@ def run(ctx):
     ctx.assumptions += [
         "the caller supplies a header with pad_octet_count = the generator's pad count, blocks_to_follow = number of data blocks (<= 127), A bit = confirmed mode",
         "payload length < 2^50",
-        "payload is a bytes object (the generator rejects bytearray / memoryview on the unchanged tree); single-threaded use",
+        "payload is a bytes object or an object with as_bytes() (the generator rejects bytearray / memoryview on the unchanged tree); single-threaded use",
     ]
     c08.lib()  # import the library before any worker is forked
     rng = ctx.rng
@@ -925,6 +1445,12 @@ def run(ctx):
     structured = structured_cases(ctx, rng)
     for desc, case, key in structured:
         add(desc, case, sample=desc == "selfref:block-end:lib32-onair" and case["rate"] == "r34" and case["k"] == 0, key=key)
+    # ---- payload content that is itself a valid PDU / burst of the protocol (fixed share, not boosted)
+    sampled = set()
+    for desc, case, key in pdu_cases(ctx, rng):
+        fam = desc.split(":")[1]
+        add(desc, case, sample=fam in ("numbered-run", "own-header") and fam not in sampled, key=key)
+        sampled.add(fam)
     # ---- payloads derived from what the library delivered / serialised (built in the workers)
     dsizes = (1, 2, 3, 4, 6, 9) if ctx.thorough() else (1, 2, 4)
     for rate in RATES:
@@ -1002,7 +1528,8 @@ def run(ctx):
     for job, results in zip(jobs, c08.pmap(job_run, jobs, c08.workers())):
         for n_res, (desc, case, lines, outs, fails, info) in enumerate(results):
             sample = job["sample"] and n_res == 0
-            ctx.case((case["rate"], case["confirmed"], case["k"], case["cc"], case["payload"], case.get("ambient"), bool(case.get("provoke")), bool(case.get("defaults")), bool(case.get("header_from_bits"))),
+            ctx.case((case["rate"], case["confirmed"], case["k"], case["cc"], case["payload"], case.get("ambient"), bool(case.get("provoke")), bool(case.get("defaults")), bool(case.get("header_from_bits")),
+                      case.get("userdata_as"), json.dumps(case.get("prelude"), sort_keys=True) if case.get("prelude") else None),
                      nontrivial=True,
                      sample={"case": desc, "rate": case["rate"], "confirmed": case["confirmed"], "k": case["k"], "len": len(case["payload"]) // 2,
                              "blocks": info["blocks"], "events": outs[-2].split(" ", 4)[-1][:160] if len(outs) > 3 else outs[-1:]} if sample else None)
